@@ -10,6 +10,7 @@
    self.active_agents     list                         e_active
    self._agent_to_index   dict                         e_a2i
    self._index_to_agent   dict, written, never read    not modelled
+   model.agents (model._agents, insertion ordered)     e_model : the agents registered with the Model
 
    Also: the sum type `case` and `run_case` the correspondence check evaluates (legacy | experimental). *)
 From Coq Require Import ZArith List Bool.
@@ -23,13 +24,14 @@ Record estate := {
   e_store : list point;
   e_n : nat;
   e_active : list Z;
-  e_a2i : list (Z * nat)
+  e_a2i : list (Z * nat);
+  e_model : list Z
 }.
 
 Definition garbage : point := [].
 
 Definition e_init (c : ecfg) : estate :=
-  {| e_store := repeat garbage (ec_cap c); e_n := 0; e_active := []; e_a2i := [] |}.
+  {| e_store := repeat garbage (ec_cap c); e_n := 0; e_active := []; e_a2i := []; e_model := [] |}.
 
 Definition e_rows (s : estate) : list point := firstn (e_n s) (e_store s).   (* agent_positions *)
 
@@ -42,7 +44,8 @@ Definition add_agent (s : estate) (a : Z) : estate :=
   let n' := S index in
   let store' := if Nat.leb (length (e_store s)) index
                 then e_store s ++ repeat garbage (growth n') else e_store s in
-  {| e_store := store'; e_n := n'; e_active := e_active s ++ [a]; e_a2i := aset a index (e_a2i s) |}.
+  {| e_store := store'; e_n := n'; e_active := e_active s ++ [a]; e_a2i := aset a index (e_a2i s);
+     e_model := e_model s |}.
 
 (* the loop of _remove_agent re-indexing every agent behind the removed one   :152-155 *)
 Definition dec_index (m : list (Z * nat)) (b : Z) : list (Z * nat) :=
@@ -59,7 +62,7 @@ Definition remove_agent (s : estate) (a : Z) : result estate :=
       let store' := firstn index (e_store s)
                     ++ firstn (n - 1 - index) (skipn (S index) (e_store s))
                     ++ skipn (n - 1) (e_store s) in
-      Ok {| e_store := store'; e_n := n - 1; e_active := active'; e_a2i := a2i' |}
+      Ok {| e_store := store'; e_n := n - 1; e_active := active'; e_a2i := a2i'; e_model := e_model s |}
   end.
 
 (* position setter   continuous_space_agents.py:36-44 *)
@@ -75,7 +78,7 @@ Definition set_position (c : ecfg) (s : estate) (a : Z) (p : point) : estate * r
       | Some idx =>
           if Nat.ltb idx (length (e_rows s))
           then ({| e_store := list_set idx p' (e_store s); e_n := e_n s;
-                   e_active := e_active s; e_a2i := e_a2i s |}, Ok tt)
+                   e_active := e_active s; e_a2i := e_a2i s; e_model := e_model s |}, Ok tt)
           else (s, Err E_INDEX)
       end
   end.
@@ -107,10 +110,11 @@ Inductive eop :=
 | EKNearest (q : point) (k : nat) (out : list Z) (* space.get_k_nearest_agents(q, k) -> out *)
 | EDiffs (q : point)                             (* space.calculate_difference_vector(q) *)
 | ENbrRadius (a : Z) (r : Z)                     (* a.get_neighbors_in_radius(r) *)
-| ENearestNbrs (a : Z) (k : nat) (out : list Z)  (* a.get_nearest_neighbors(k) -> out *)
+| ENearestNbrs (a : Z) (k : nat) (raw : list Z)  (* a.get_nearest_neighbors(k); raw = what get_k_nearest_agents(k+1) chose *)
 | EPair (a b : Z)                                (* calculate_distances(a.position, [b]) and (b.position, [a]) *)
 | EDistancesOf (q : point) (l : list Z)          (* space.calculate_distances(q, agents=l) *)
-| EDiffsOf (q : point) (l : list Z).             (* space.calculate_difference_vector(q, agents=l) *)
+| EDiffsOf (q : point) (l : list Z)              (* space.calculate_difference_vector(q, agents=l) *)
+| EClear.                                        (* model.remove_all_agents(): agent.remove() for every agent of the model *)
 
 (* self._agent_positions[[self._agent_to_index[a] for a in agents]] : the rows of the listed agents, in order *)
 Fixpoint positions_of (g : Z -> option point) (l : list Z) : option (list point) :=
@@ -143,7 +147,7 @@ Section Queries.
   Definition equery (o : eop) : option (result (list Z)) :=
     let bs := ec_bounds c in
     match o with
-    | EAdd _ _ | ESet _ _ | ERemove _ => None
+    | EAdd _ _ | ESet _ _ | ERemove _ | EClear => None
     | EDistances q =>
         if negb (dim_ok bs q) then None
         else Some (Ok (obs_rows (pair_rows (distances q))))
@@ -162,24 +166,27 @@ Section Queries.
         else Some (Ok (obs_rows (map (fun ar : Z * point =>
                                         fst ar :: diffv (ec_torus c) bs q (snd ar)) m)))
     | ENbrRadius a r =>
-        match getpos a with
+        (* get_agents_in_radius(self.position, r), then every entry that `is self` dropped.  r < 0: the answer is
+           empty and the wrapper indexes with an empty float mask (IndexError) - outside the quantifier, not issued *)
+        match (if r <? 0 then None else getpos a) with
         | None => None
         | Some pa =>
             Some (Ok (obs_rows (pair_rows
                    (filter (fun ad : Z * Z => negb (fst ad =? a)) (in_radius pa r)))))
         end
-    | ENearestNbrs a k out =>
+    | ENearestNbrs a k raw =>
+        (* agents, dists = get_k_nearest_agents(self.position, k + 1); every entry that `is self` dropped.
+           raw is argpartition's choice of k+1 agents (legality-checked); NOTHING else is assumed: when at least k+1
+           other agents sit exactly on self, self may be missing from raw and k+1 agents are returned *)
         match getpos a with
         | None => None
         | Some pa =>
             let ds := distances pa in
-            (* another agent exactly on a: which of them argpartition drops is a tie -> not issued *)
-            if Nat.eqb k 0 || Nat.ltb n (S k)
-               || existsb (fun bd : Z * Z => negb (fst bd =? a) && (snd bd =? 0)) ds
-            then None
+            if Nat.eqb k 0 || Nat.ltb n (S k) then None
             else
-              if knn_legal ds (S k) (a :: out)
-              then Some (Ok (obs_rows (map (fun b => [b; dist_of ds b]) out)))
+              if knn_legal ds (S k) raw
+              then Some (Ok (obs_rows (map (fun b => [b; dist_of ds b])
+                                           (filter (fun b => negb (b =? a)) raw))))
               else Some (Ok obs_illegal)
         end
     | EPair a b =>
@@ -215,6 +222,32 @@ Definition e_getrow (s : estate) (a : Z) : option point :=
   then match aget a (e_a2i s) with Some idx => nth_error (e_store s) idx | None => None end
   else None.
 
+(* Agent.__init__ -> model.register_agent: model._agents[agent] = None (a new key: appended) *)
+Definition register (s : estate) (a : Z) : estate :=
+  {| e_store := e_store s; e_n := e_n s; e_active := e_active s; e_a2i := e_a2i s; e_model := e_model s ++ [a] |}.
+(* Agent.remove -> model.deregister_agent: del model._agents[agent] *)
+Definition deregister (s : estate) (a : Z) : estate :=
+  {| e_store := e_store s; e_n := e_n s; e_active := e_active s; e_a2i := e_a2i s;
+     e_model := filter (fun b => negb (b =? a)) (e_model s) |}.
+
+(* ContinuousSpaceAgent.remove   continuous_space_agents.py:69-74 : super().remove() first, then space._remove_agent *)
+Definition agent_remove (s : estate) (a : Z) : estate * result unit :=
+  let s0 := deregister s a in
+  match remove_agent s0 a with
+  | Ok s' => (s', Ok tt)
+  | Err k => (s0, Err k)
+  end.
+
+(* Model.remove_all_agents: for agent in list(self._agents.keys()): agent.remove() *)
+Fixpoint remove_all (s : estate) (l : list Z) : estate * result unit :=
+  match l with
+  | [] => (s, Ok tt)
+  | a :: t => match agent_remove s a with
+              | (s', Ok _) => remove_all s' t
+              | (s', Err k) => (s', Err k)
+              end
+  end.
+
 Definition estep (c : ecfg) (s : estate) (o : eop) : estate * option (result (list Z)) :=
   let bs := ec_bounds c in
   match o with
@@ -223,7 +256,7 @@ Definition estep (c : ecfg) (s : estate) (o : eop) : estate * option (result (li
          || (negb (ec_torus c) && negb (in_closed bs p))   (* would leave an uninitialised row: not issued *)
       then (s, None)
       else
-        let s1 := add_agent s a in
+        let s1 := add_agent (register s a) a in       (* Agent.__init__ registers with the model, then _add_agent *)
         match set_position c s1 a p with
         | (s2, Ok _) => (s2, Some (Ok []))
         | (s2, Err k) => (s2, Some (Err k))
@@ -238,19 +271,26 @@ Definition estep (c : ecfg) (s : estate) (o : eop) : estate * option (result (li
   | ERemove a =>
       if negb (mem a (e_active s)) then (s, None)
       else
-        match remove_agent s a with
-        | Ok s' => (s', Some (Ok []))
-        | Err k => (s, Some (Err k))
+        match agent_remove s a with
+        | (s', Ok _) => (s', Some (Ok []))
+        | (s', Err k) => (s', Some (Err k))
         end
+  | EClear =>
+      match remove_all s (e_model s) with
+      | (s', Ok _) => (s', Some (Ok []))
+      | (s', Err k) => (s', Some (Err k))
+      end
   | _ => (s, equery c (combine (e_active s) (e_rows s)) (e_getpos s) (e_getrow s) (e_n s) o)
   end.
 
-(* what the property talks about: space.agents and every agent's reported position *)
+(* what the property talks about: space.agents IN ORDER (AgentSet(self.active_agents)) with every agent's reported
+   position, and model.agents in order *)
 Definition e_view (s : estate) : list Z :=
   Z.of_nat (length (e_active s))
   :: Z.of_nat (length (e_rows s))
-  :: obs_rows (map (fun a => a :: match get_position s a with Some p => p | None => [-999999] end)
-                   (e_active s)).
+  :: obs_rows_in_order (map (fun a => a :: match get_position s a with Some p => p | None => [-999999] end)
+                            (e_active s))
+  ++ SEP :: e_model s.
 
 Definition e_obs (s : estate) (r : option (result (list Z))) : list Z :=
   match r with
